@@ -102,6 +102,8 @@ func (r *c17Run) conc(g int, body func(gi int)) {
 func (r *c17Run) finish(kind string, rep int) {
 	c := r.c
 	c.Class("kind_" + kind)
+	// how many goroutines were inside pat-go at the same moment on this object (the interleaving actually seen)
+	c.Class(fmt.Sprintf("objects_with_max_%02d_calls_in_flight", r.maxSeen.Load()))
 	if r.maxSeen.Load() >= 2 {
 		c.Class("objects_with_overlap")
 		c.Distinctf("%s:%d", kind, rep)
